@@ -244,35 +244,35 @@ static inline uint64_t flatcc_json_parser_symbol_part_ext(const char *buf, const
 #if 1
     switch (n) {
     case 8:
-        w |= ((uint64_t)buf[7]) << (0 * 8);
+        w |= ((uint64_t)(unsigned char)buf[7]) << (0 * 8);
         goto lbl_n_7;
     case 7:
 lbl_n_7:
-        w |= ((uint64_t)buf[6]) << (1 * 8);
+        w |= ((uint64_t)(unsigned char)buf[6]) << (1 * 8);
         goto lbl_n_6;
     case 6:
 lbl_n_6:
-        w |= ((uint64_t)buf[5]) << (2 * 8);
+        w |= ((uint64_t)(unsigned char)buf[5]) << (2 * 8);
         goto lbl_n_5;
     case 5:
 lbl_n_5:
-        w |= ((uint64_t)buf[4]) << (3 * 8);
+        w |= ((uint64_t)(unsigned char)buf[4]) << (3 * 8);
         goto lbl_n_4;
     case 4:
 lbl_n_4:
-        w |= ((uint64_t)buf[3]) << (4 * 8);
+        w |= ((uint64_t)(unsigned char)buf[3]) << (4 * 8);
         goto lbl_n_3;
     case 3:
 lbl_n_3:
-        w |= ((uint64_t)buf[2]) << (5 * 8);
+        w |= ((uint64_t)(unsigned char)buf[2]) << (5 * 8);
         goto lbl_n_2;
     case 2:
 lbl_n_2:
-        w |= ((uint64_t)buf[1]) << (6 * 8);
+        w |= ((uint64_t)(unsigned char)buf[1]) << (6 * 8);
         goto lbl_n_1;
     case 1:
 lbl_n_1:
-        w |= ((uint64_t)buf[0]) << (7 * 8);
+        w |= ((uint64_t)(unsigned char)buf[0]) << (7 * 8);
         break;
     case 0:
         break;
